@@ -915,3 +915,93 @@ Proof.
     destruct H1 as [A1 A2], H2 as [B1 B2]. subst.
     rewrite <- map_app. apply all_done_job_proof; auto. apply Forall_app. auto.
 Qed.
+
+(* ---------- example programs (non-vacuity of the checker and of the theorems) ---------- *)
+(* The shape the translator emits for
+     ds.Select(lambda e: {"a": e.Jets("b1").Select(lambda j: j.pt()), "n": e.Jets("b1").Select(lambda j: j.pt()).Sum()})
+   : a vector column (class member, pushed in a loop, cleared after Fill) and a block-local accumulator. *)
+Definition jets_t : string := "const xAOD::JetContainer*".
+Definition fetch_jets (target : string) : stmt :=
+  SFetch "atlas" target jets_t "b1"
+         ["const xAOD::JetContainer* result = 0;"; "ANA_CHECK (evtStore()->retrieve(result, ""b1""));"].
+Definition pt_of (x : string) : cexp := CMeth (CVar x) true "pt" CNil.
+Definition fill_line : string := "tree(""atlas_xaod_tree"")->Fill();".
+
+Definition ex_body (with_clear : bool) : block :=
+  Blk [ {| d_type := jets_t; d_name := "jets1"; d_init := None |};
+        {| d_type := jets_t; d_name := "jets3"; d_init := None |};
+        {| d_type := "double"; d_name := "aggResult5"; d_init := Some (CInt 0) |} ]
+      (stmts_of_list
+         ([ fetch_jets "jets1";
+            SFor "i_obj2" (CDeref (CVar "jets1")) (Blk [] (stmts_of_list [SPush "_a6" None (pt_of "i_obj2")]));
+            fetch_jets "jets3";
+            SFor "i_obj4" (CDeref (CVar "jets3"))
+                 (Blk [] (stmts_of_list [SSet "aggResult5" None (CBin "+" (CVar "aggResult5") (pt_of "i_obj4"))]));
+            SSet "_n7" None (CVar "aggResult5");
+            SFill fill_line ] ++ (if with_clear then [SClear "_a6"] else []))).
+
+Definition ex_prog (body : block) : program :=
+  {| p_members := [ {| m_type := "std::vector<double>"; m_name := "_a6" |}; {| m_type := "double"; m_name := "_n7" |} ];
+     p_tree := "atlas_xaod_tree";
+     p_branches := [ {| br_name := "a"; br_var := "_a6" |}; {| br_name := "n"; br_var := "_n7" |} ];
+     p_book_extra := [];
+     p_body := body |}.
+
+Definition ex_good : program := ex_prog (ex_body true).
+Definition ex_missing_clear : program := ex_prog (ex_body false).
+
+(* the scalar column is assigned only inside the loop over the jets (the shape of DESIGN section 8 row 10:
+   a value computed per outer element, Fill outside): nothing sets it when the collection is empty *)
+Definition ex_scalar_in_loop : program :=
+  ex_prog (Blk [ {| d_type := jets_t; d_name := "jets1"; d_init := None |} ]
+               (stmts_of_list
+                  [ fetch_jets "jets1";
+                    SFor "i_obj2" (CDeref (CVar "jets1"))
+                         (Blk [] (stmts_of_list [SPush "_a6" None (pt_of "i_obj2"); SSet "_n7" None (pt_of "i_obj2")]));
+                    SFill fill_line; SClear "_a6" ])).
+
+Definition ex_event (objs : list nat) (pts : list (nat * Z)) : event :=
+  {| ev_colls := [ ((jets_t, "b1"), VVec (map VObj objs)) ];
+     ev_meths := map (fun op => ((fst op, "pt"), VDbl (qz (snd op)))) pts |}.
+Definition ev_two : event := ex_event [0; 1] [(0, 30%Z); (1, 5%Z)].
+Definition ev_none : event := ex_event [] [].
+
+Lemma ex_good_accepted : event_local ex_good = true.
+Proof. vm_compute. reflexivity. Qed.
+
+Lemma ex_good_rows :
+  run_job ex_good [ev_two; ev_none; ev_two] =
+  JDone [ [[VVec [VDbl (qz 30); VDbl (qz 5)]; VDbl (qz 35)]];
+          [[VVec []; VDbl (qz 0)]];
+          [[VVec [VDbl (qz 30); VDbl (qz 5)]; VDbl (qz 35)]] ].
+Proof. vm_compute. reflexivity. Qed.
+
+Lemma ex_missing_clear_rejected : event_local ex_missing_clear = false.
+Proof. vm_compute. reflexivity. Qed.
+
+Lemma ex_missing_clear_witness :
+  exists evs rss, run_job ex_missing_clear evs = JDone rss /\ rss <> map (event_rows ex_missing_clear) evs.
+Proof.
+  exists [ev_two; ev_none]. eexists. split.
+  - vm_compute. reflexivity.
+  - intros H. vm_compute in H. discriminate H.
+Qed.
+
+Lemma ex_scalar_in_loop_rejected : event_local ex_scalar_in_loop = false.
+Proof. vm_compute. reflexivity. Qed.
+
+Lemma ex_scalar_in_loop_witness :
+  exists evs rss, run_job ex_scalar_in_loop evs = JDone rss /\ rss <> map (event_rows ex_scalar_in_loop) evs.
+Proof.
+  exists [ev_two; ev_none]. eexists. split.
+  - vm_compute. reflexivity.
+  - intros H. vm_compute in H. discriminate H.
+Qed.
+
+(* permutation invariance is not vacuous either: the accepted program on a permuted list *)
+Lemma ex_good_permuted :
+  run_job ex_good [ev_none; ev_two; ev_two] =
+  JDone [ [[VVec []; VDbl (qz 0)]];
+          [[VVec [VDbl (qz 30); VDbl (qz 5)]; VDbl (qz 35)]];
+          [[VVec [VDbl (qz 30); VDbl (qz 5)]; VDbl (qz 35)]] ].
+Proof. vm_compute. reflexivity. Qed.
